@@ -1,5 +1,6 @@
 import MalVerif.Py.TieClassesTop
 import MalVerif.Py.TieClassesSig
+import MalVerif.Py.TieClassesPreFix
 import MalVerif.Props.C06
 import MalVerif.Proofs.InheritLemmas
 /-!
@@ -51,6 +52,24 @@ theorem built_asset_names {pjs : Pjs} {lg : LG} {L : Lang} {s : Self} (h : RepLG
   rw [hs, assetDefs_schemaOf]
   exact assetPart_names lg ra hra (rep_names_nodup h hn)
 
+/-- every element of the left list has a partner in the right list -/
+theorem all2_mem_left {α β} (p : α → β → Bool) : ∀ (l : List α) (m : List β), all2 p l m = true → ∀ x ∈ l,
+    ∃ y ∈ m, p x y = true
+  | [], _, _, _, hx => nomatch hx
+  | _ :: _, [], h, _, _ => by simp [all2] at h
+  | a :: as, b :: bs, h, x, hx => by
+    simp only [all2, Bool.and_eq_true] at h
+    rcases List.mem_cons.1 hx with rfl | hx
+    · exact ⟨b, List.mem_cons_self, h.1⟩
+    · obtain ⟨y, hy, hp⟩ := all2_mem_left p as bs h.2 x hx
+      exact ⟨y, List.mem_cons_of_mem _ hy, hp⟩
+
+/-- the TTC of a step object of a represented language graph is `None` or a dictionary: the factory can read it -/
+theorem repStep_ttcOk (st : LGStep) (e : String × StepDecl) (h : repStep st e = true) : ttcOk st.ttc = true := by
+  unfold repStep at h
+  unfold ttcOk
+  cases hs : st.ttc <;> rw [hs] at h <;> simp_all [Visitor.truthy, Visitor.isDict]
+
 /-! ### asset classes -/
 
 /-- **the generated classes expose exactly the language's asset types**: the asset classes of the schema are the
@@ -75,25 +94,10 @@ theorem defenses_exact_translated (pjs : Pjs) (lg : LG) (L : Lang) (s : Self) (h
     rw [hnames]; exact foldSteps_keys_nodup L _
   have hres : NoReservedDefense (lg.asset x).attack_steps := by
     intro st hst htype
-    -- the step object corresponds to an entry of the fold with the same name and type
-    have hall := hsteps
-    have key : ∀ (l : List LGStep) (m : List (String × StepDecl)), all2 repStep l m = true → st ∈ l →
-        ∃ e ∈ m, e.1 = st.name ∧ e.2.type = st.type := by
-      intro l
-      induction l with
-      | nil => intro m _ hm; cases hm
-      | cons y ys ih =>
-        intro m hm hin
-        cases m with
-        | nil => simp [all2] at hm
-        | cons e es =>
-          simp only [all2, Bool.and_eq_true] at hm
-          rcases List.mem_cons.1 hin with rfl | hin
-          · obtain ⟨h1, h2, _⟩ := repStep_spec _ _ hm.1
-            exact ⟨e, List.mem_cons_self, h1.symm, h2.symm⟩
-          · obtain ⟨e', he', hh⟩ := ih es hm.2 hin
-            exact ⟨e', List.mem_cons_of_mem _ he', hh⟩
-    obtain ⟨e, he, he1, he2⟩ := key _ _ hall hst
+    obtain ⟨e, he, hrep⟩ := all2_mem_left repStep _ _ hsteps st hst
+    obtain ⟨he1, he2, _⟩ := repStep_spec _ _ hrep
+    have he1 := he1.symm
+    have he2 := he2.symm
     rw [hxn] at he
     have := hr a ha e he (by rw [he2]; exact htype)
     rw [he1] at this; exact this
@@ -116,9 +120,11 @@ theorem defense_default_iff (pjs : Pjs) (lg : LG) (L : Lang) (s : Self) (h : Rep
   · rintro ⟨ds, hds, hm⟩; cases hds; exact hm
   · intro hm; exact ⟨_, rfl, hm⟩
 
-/-- the constructor returns iff every defense carries a TTC the factory can read (`None`, `{}` or a dictionary with
-the key `name`) and the library accepts the schema -/
-theorem built_iff (pjs : Pjs) (lg : LG) :
+/-- the constructor on an ARBITRARY language graph: it returns iff the library accepts the schema and no defense
+carries a TTC that is true but not a dictionary (`defense.ttc.get('name')` would raise AttributeError on it; the
+attribute is annotated `dict`, and `_generate_graph` only stores `None` or dictionaries there).  Since fix 6addd5c
+nothing else is left: a dictionary without the key `name` - a composite TTC - is read as "not Enabled" -/
+theorem built_iff_raw (pjs : Pjs) (lg : LG) :
     (∃ s, Built pjs lg s) ↔
       (∀ x ∈ lg.assets, ∀ st ∈ (lg.asset x).attack_steps, st.type = "defense" → ttcOk st.ttc = true) ∧
       ∀ ra, assetPart lg = .ok ra → ∃ b, pjs.ObjectBuilder (schemaOf ra (assocPart lg)) = .ok b ∧
@@ -134,16 +140,39 @@ theorem built_iff (pjs : Pjs) (lg : LG) :
     obtain ⟨ra, hra⟩ := (assetPart_ok_iff lg).2 (fun x hx => (assetProps_ok_iff _).2 (hok x hx))
     exact ⟨ra, hra, hb ra hra⟩
 
-/-- FINDING (recorded in the notes): a defense with a TTC the factory cannot read - e.g. a composite TTC
-`{'type': 'addition', …}`, which has no key `name` - makes the constructor raise (KeyError / TypeError) -/
-theorem unreadable_defense_ttc_raises (pjs : Pjs) (lg : LG) (x : ARef) (hx : x ∈ lg.assets) (st : LGStep)
-    (hst : st ∈ (lg.asset x).attack_steps) (hd : st.type = "defense") (hbad : ttcOk st.ttc = false) :
-    ∃ e, factory_create_classes pjs lg {} = .error e := by
-  cases hc : factory_create_classes pjs lg {} with
-  | error e => exact ⟨e, rfl⟩
-  | ok s =>
-    have := ((built_iff pjs lg).1 ⟨s, hc⟩).1 x hx st hst hd
-    rw [hbad] at this; cases this
+/-- on the language graph of a language the schema can always be built (no condition on the TTCs) -/
+theorem schema_always_built (lg : LG) (L : Lang) (h : RepLG lg L) : ∃ ra, assetPart lg = .ok ra := by
+  apply (assetPart_ok_iff lg).2
+  intro x hx
+  apply (assetProps_ok_iff _).2
+  intro st hst _
+  obtain ⟨e, _, hrep⟩ := all2_mem_left repStep _ _ (h.steps x hx) st hst
+  exact repStep_ttcOk st e hrep
+
+/-- **the constructor returns iff the library accepts the schema** (language graph of a language; since fix 6addd5c
+no condition on the TTCs of the defenses is left) -/
+theorem built_iff (pjs : Pjs) (lg : LG) (L : Lang) (h : RepLG lg L) :
+    (∃ s, Built pjs lg s) ↔
+      ∃ ra, assetPart lg = .ok ra ∧ ∃ b, pjs.ObjectBuilder (schemaOf ra (assocPart lg)) = .ok b ∧
+        ∃ ns, pjs.build_classes b (V.bool false) = .ok ns := by
+  unfold Built
+  exact create_classes_ok_iff pjs lg {}
+
+/-- with a library that accepts every schema the constructor returns for every language -/
+theorem built_of_accepting_library (pjs : Pjs) (lg : LG) (L : Lang) (h : RepLG lg L)
+    (hacc : ∀ schema, ∃ b, pjs.ObjectBuilder schema = .ok b ∧ ∃ ns, pjs.build_classes b (V.bool false) = .ok ns) :
+    ∃ s, Built pjs lg s := by
+  obtain ⟨ra, hra⟩ := schema_always_built lg L h
+  exact (built_iff pjs lg L h).2 ⟨ra, hra, hacc _⟩
+
+/-- **a defense with a composite TTC** (or a number: any TTC without a single distribution name, `ttcName = none`)
+**gets the default 0** - the repaired code (fix 6addd5c) does not raise on it -/
+theorem composite_ttc_defense_defaults_to_zero (pjs : Pjs) (lg : LG) (L : Lang) (s : Self) (h : RepLG lg L)
+    (hb : Built pjs lg s) (hn : AssetNamesDistinct L) (hr : NoReservedDefenseL L) (a : AssetDecl) (ha : a ∈ L.assets)
+    (d : String) (decl : StepDecl) (hd : (d, decl) ∈ L.foldSteps a.name) (ht : decl.type = "defense")
+    (hc : decl.ttcName = none) :
+    ∃ ds, schemaDefenses s.json_schema a.name = some ds ∧ (d, "0.0") ∈ ds :=
+  (defense_default_iff pjs lg L s h hb hn hr a ha d "0.0").2 ⟨decl, hd, ht, by rw [hc]; rfl⟩
 
 /-! ### association classes -/
 
@@ -359,9 +388,8 @@ example : ∀ d ∈ MS.Demo.lang.assocs, d.leftField ≠ d.rightField := by deci
 example : (MS.Demo.lang.assocs.map (fun a => (a.name, a.leftAsset, a.rightAsset))).Nodup := by decide
 
 /-- the constructor returns on the language graph of `Demo.lang` -/
-theorem demo_built : ∃ s, Built anyPjs (lgOfLang MS.Demo.lang) s := by
-  rw [built_iff]
-  refine ⟨by decide, fun ra _ => ⟨_, rfl, _, rfl⟩⟩
+theorem demo_built : ∃ s, Built anyPjs (lgOfLang MS.Demo.lang) s :=
+  built_of_accepting_library _ _ _ demo_rep (fun _ => ⟨_, rfl, _, rfl⟩)
 
 /-- … and what the theorems say of it: asset classes, the defenses of `Host` (one inherited and Enabled), the class of
 the second `Link`, the signature lookup -/
@@ -380,13 +408,42 @@ example : ∀ s, Built anyPjs (lgOfLang MS.Demo.lang) s →
   · exact assoc_class_translated _ _ _ s demo_rep hb hn hc MS.Demo.lang.assocs[1] (List.getElem_mem _) (by decide)
   · exact signature_lookup_translated _ _ _ s demo_rep hb hc MS.Demo.lang.assocs[0] (List.getElem_mem _)
 
-/-- a language graph with a defense whose TTC is composite (no key `name`): the constructor raises -/
-def badTtcGraph : LG :=
-  { asset := fun _ => { name := "Host", attack_steps := [{ name := "d", type := "defense",
-                                                           ttc := V.dict [("type", V.str "addition")] }] },
+/-! ### the defect repaired by 6addd5c -/
+
+/-- a language graph with one asset type `Host` whose defense `d` carries a composite TTC (a dictionary without the
+key `name`, as the compiler produces for `Exponential(1.0) + Exponential(2.0)`) -/
+def compositeTtcGraph : LG :=
+  let fn (n a : String) : V := V.dict [("type", V.str "function"), ("name", V.str n), ("arguments", V.list [V.num a])]
+  let ttc : V := V.dict [("type", V.str "addition"), ("lhs", fn "Exponential" "1.0"), ("rhs", fn "Exponential" "2.0")]
+  { asset := fun _ => { name := "Host", attack_steps := [{ name := "d", type := "defense", ttc := ttc }] },
     assets := [0] }
 
-example : ∃ e, factory_create_classes anyPjs badTtcGraph {} = .error e :=
-  unreadable_defense_ttc_raises _ _ 0 (by decide) _ List.mem_cons_self rfl rfl
+/-- the defenses (with defaults) of class `t` in the schema a constructor call leaves; `none` when it raised -/
+def defensesAfter (r : M Self) (t : String) : Option (List (String × String)) :=
+  match r with
+  | .ok s => schemaDefenses s.json_schema t
+  | .error _ => none
+
+/-- the repaired code (the generated `factory_create_classes`) builds the class of `Host` with `d` defaulting to 0 -/
+theorem composite_ttc_witness :
+    defensesAfter (factory_create_classes anyPjs compositeTtcGraph {}) "Host" = some [("d", "0.0")] := by
+  decide
+
+/-- **witness of the defect**: the pre-fix code (`Py/TieClassesPreFix.lean`: `defense.ttc['name']`) raises KeyError
+on the same language graph - classes could not be generated for a language with such a defense -/
+theorem pre_fix_composite_ttc_raises :
+    PreFix.create_classes anyPjs compositeTtcGraph {} = .error (.py .keyError) := rfl
+
+/-- a TTC that is true but not a dictionary (the number 3) -/
+def numberTtcGraph : LG :=
+  { asset := fun _ => { name := "Host", attack_steps := [{ name := "d", type := "defense", ttc := V.int 3 }] },
+    assets := [0] }
+
+/-- what is left on an arbitrary graph: `.get` on such a TTC raises (AttributeError) -/
+example : ¬ ∃ s, Built anyPjs numberTtcGraph s := by
+  rw [built_iff_raw]
+  intro h
+  have := h.1 0 List.mem_cons_self _ List.mem_cons_self rfl
+  cases this
 
 end MalVerif.PropsGen.C06
